@@ -190,6 +190,13 @@ def clear_agree(ctx, rr):
                 rr.fail(ctx.finding('R-CLEAR-AGREE', u, g.node, 'rules given to clear() are not written into the emptied trie'))
             if first_idx(r, lambda e: e is g) < max(first_idx(r, lambda e, c=c: e is c) for c in ctors):
                 rr.fail(ctx.finding('R-CLEAR-AGREE', u, g.node, 'rules are registered before the structures were rebuilt'))
+    # optional rule arguments of clear() are told apart from "not given" by None-ness: b"" and {} are legitimate values
+    for prm in u.call_params:
+        tr = any(('truthy:' + prm) in r.val for r in rows)
+        rr.ob(ctx.where(u), 'clear(%s=...) is tested with `is not None`' % prm, ok=not tr)
+        if tr:
+            rr.fail(ctx.finding('R-CLEAR-AGREE', u, u.node, 'clear() tests its argument `%s` for truthiness: an empty rule (b"" / {}) given to clear() is ignored and the old rules '
+                                'survive the clear' % prm, stmt='clear %s none-ness' % prm))
     mc = P.classes['MemoryStorage'].get('clear')
     if mc is None:
         raise AnalysisError('anchor vanished: MemoryStorage.clear')
